@@ -455,8 +455,9 @@ func (e *Env) objectVal(obj types.Object) (*Val, error) {
 	case *types.Var:
 		if o.Pkg() != nil && o.Parent() == o.Pkg().Scope() {
 			name := smtName("glob_" + o.Pkg().Path() + "." + o.Name())
-			if !c.sc.declSeen[name] {
-				c.sc.declareConst(name, SV)
+			c.sc.declareConst(name, SV)
+			if !c.sc.declSeen["nn:"+name] {
+				c.sc.declSeen["nn:"+name] = true
 				c.sc.assert(mk(SBool, "(and (not (= %s null)) (< (birth %s) 0))", name, name))
 			}
 			return c.loadObj(e.st, &Term{name, SV}, o.Type()), nil
@@ -521,6 +522,7 @@ func (e *Env) ssaVal(v ssa.Value) *Val {
 
 // lookupLocal finds the value of a source-level local variable at the start of e.blk.
 func (e *Env) lookupLocal(name string) *Val {
+	fr := e.frame
 	// phis of this block
 	for _, in := range e.blk.Instrs {
 		phi, ok := in.(*ssa.Phi)
@@ -536,25 +538,37 @@ func (e *Env) lookupLocal(name string) *Val {
 	if e.atEnd {
 		start = e.blk
 	}
+	isNilConst := func(v ssa.Value) bool {
+		k, ok := v.(*ssa.Const)
+		return ok && k.Value == nil
+	}
+	fromRef := func(in *ssa.DebugRef) *Val {
+		v := e.ssaVal(in.X)
+		if in.IsAddr {
+			t := in.X.Type().Underlying().(*types.Pointer).Elem()
+			lv, err := e.c.load(e.st, v, t)
+			if err != nil {
+				return nil
+			}
+			return lv
+		}
+		return v
+	}
+	var nilRef *ssa.DebugRef
 	for b := start; b != nil; b = b.Idom() {
 		for k := len(b.Instrs) - 1; k >= 0; k-- {
 			switch in := b.Instrs[k].(type) {
 			case *ssa.DebugRef:
-				if id, ok := in.Expr.(interface{ String() string }); ok {
-					_ = id
-				}
 				if obj := in.Object(); obj != nil && obj.Name() == name {
 					if _, isVar := obj.(*types.Var); isVar {
-						v := e.ssaVal(in.X)
-						if in.IsAddr {
-							t := in.X.Type().Underlying().(*types.Pointer).Elem()
-							lv, err := e.c.load(e.st, v, t)
-							if err != nil {
-								return nil
+						if isNilConst(in.X) {
+							// go/ssa reports the zero value at the definition of `x := T{}`; keep looking
+							if nilRef == nil {
+								nilRef = in
 							}
-							return lv
+							continue
 						}
-						return v
+						return fromRef(in)
 					}
 				}
 			case *ssa.Phi:
@@ -563,6 +577,36 @@ func (e *Env) lookupLocal(name string) *Val {
 				}
 			}
 		}
+	}
+	// fallback: any reference to the variable whose value is defined in a block dominating this one
+	var found *ssa.DebugRef
+	for _, b := range fr.fn.Blocks {
+		for _, ins := range b.Instrs {
+			in, ok := ins.(*ssa.DebugRef)
+			if !ok || isNilConst(in.X) {
+				continue
+			}
+			obj := in.Object()
+			if obj == nil || obj.Name() != name {
+				continue
+			}
+			if _, isVar := obj.(*types.Var); !isVar {
+				continue
+			}
+			def, ok := in.X.(ssa.Instruction)
+			if ok && def.Block() != nil && (def.Block() == e.blk || def.Block().Dominates(e.blk)) {
+				if found != nil && found.X != in.X {
+					return nil // ambiguous
+				}
+				found = in
+			}
+		}
+	}
+	if found != nil {
+		return fromRef(found)
+	}
+	if nilRef != nil {
+		return fromRef(nilRef)
 	}
 	return nil
 }
@@ -957,6 +1001,24 @@ func (e *Env) evalCall(n *ECall) (*Val, error) {
 			return fr.convert(nil, a[0], types.NewSlice(types.Typ[types.Byte]), types.Typ[types.String]), nil
 		case "nobytes":
 			return scalar(c.mkSlice(SInt, nil), types.NewSlice(types.Typ[types.Byte])), nil
+		case "$visited":
+			// $visited(k): key k has already been produced by the range-over-map loop this invariant belongs to
+			if e.frame == nil || e.blk == nil || len(n.Args) != 1 {
+				return nil, fmt.Errorf("$visited(k) is only available in invariants of range-over-map loops")
+			}
+			a, err := e.eval(n.Args[0])
+			if err != nil {
+				return nil, err
+			}
+			for _, in := range e.blk.Instrs {
+				if nx, ok := in.(*ssa.Next); ok {
+					if rs := e.frame.rangeIt[nx.Iter]; rs != nil && rs.key != "" {
+						hi := c.keys[rs.key]
+						return scalar(tSelect(c.get(e.st, rs.key, hi.sort), a.T), boolT), nil
+					}
+				}
+			}
+			return nil, fmt.Errorf("$visited: loop at block %d is not a range over a map", e.blk.Index)
 		case "addr":
 			// addr(p.f): the address of struct-typed field f of object p (e.g. a mutex)
 			if len(n.Args) != 1 {
@@ -1068,6 +1130,11 @@ func (e *Env) evalCall(n *ECall) (*Val, error) {
 			}
 			return c.applyFuncValue(a[0], a[1:], sig)
 		}
+		if strings.HasPrefix(id.Name, "$body:") {
+			if sf, ok := c.V.specs[id.Name[6:]]; ok {
+				return e.applySpecBody(sf, n.Args, true)
+			}
+		}
 		if sf, ok := c.V.specs[id.Name]; ok {
 			return e.applySpec(sf, n.Args)
 		}
@@ -1157,6 +1224,10 @@ func exprText(x Expr) string {
 }
 
 func (e *Env) applySpec(sf *SpecFunc, args []Expr) (*Val, error) {
+	return e.applySpecBody(sf, args, false)
+}
+
+func (e *Env) applySpecBody(sf *SpecFunc, args []Expr, forceBody bool) (*Val, error) {
 	c := e.c
 	a, err := e.evalArgs(args)
 	if err != nil {
@@ -1171,7 +1242,7 @@ func (e *Env) applySpec(sf *SpecFunc, args []Expr) (*Val, error) {
 	if len(a) != len(sf.Params) {
 		return nil, fmt.Errorf("spec func %s: %d arguments, want %d", sf.Name, len(a), len(sf.Params))
 	}
-	if sf.Body == nil {
+	if sf.Body == nil || (sf.Opaque && !forceBody) {
 		// uninterpreted
 		var sorts []Sort
 		var ts []*Term
